@@ -696,7 +696,7 @@ func (vc *VC) wf(st *State, v Val, t types.Type) string {
 			}
 			vc.seenRefTid[p.ref] = vc.tid(u.Elem())
 		}
-		cs := []string{fmt.Sprintf("(>= %s 0)", p.ref), fmt.Sprintf("(< %s %s)", p.ref, st.top), implies(eq(p.ref, "0"), eq(p.idx, "0")), fmt.Sprintf("(>= %s 0)", p.idx)}
+		cs := []string{fmt.Sprintf("(>= %s 0)", p.ref), vc.belowTop(st, p.ref), implies(eq(p.ref, "0"), eq(p.idx, "0")), fmt.Sprintf("(>= %s 0)", p.idx)}
 		if vc.eng.wholeObjectType(u.Elem()) {
 			cs = append(cs, implies(fmt.Sprintf("(> %s 0)", p.ref), and(fmt.Sprintf("(= (typ %s) %d)", p.ref, vc.tid(u.Elem())), eq(p.idx, "0"))))
 		} else if isAtom(p.ref) && isAtom(p.idx) {
@@ -707,7 +707,7 @@ func (vc *VC) wf(st *State, v Val, t types.Type) string {
 		return and(cs...)
 	case *types.Slice:
 		s := v.(SliceV)
-		return and(fmt.Sprintf("(>= %s 0)", s.ref), fmt.Sprintf("(< %s %s)", s.ref, st.top), fmt.Sprintf("(>= %s 0)", s.off), fmt.Sprintf("(>= %s 0)", s.ln), fmt.Sprintf("(<= %s %s)", s.ln, s.cp),
+		return and(fmt.Sprintf("(>= %s 0)", s.ref), vc.belowTop(st, s.ref), fmt.Sprintf("(>= %s 0)", s.off), fmt.Sprintf("(>= %s 0)", s.ln), fmt.Sprintf("(<= %s %s)", s.ln, s.cp),
 			implies(eq(s.ref, "0"), and(eq(s.cp, "0"), eq(s.off, "0"))),
 			implies(fmt.Sprintf("(> %s 0)", s.ref), fmt.Sprintf("(= (typ %s) %d)", s.ref, vc.eng.arrTid(u.Elem()))))
 	case *types.Interface:
@@ -716,10 +716,10 @@ func (vc *VC) wf(st *State, v Val, t types.Type) string {
 	case *types.Map:
 		m := v.(MapV)
 		vc.noteRef(m.ref)
-		return and(fmt.Sprintf("(>= %s 0)", m.ref), fmt.Sprintf("(< %s %s)", m.ref, st.top), implies(fmt.Sprintf("(> %s 0)", m.ref), fmt.Sprintf("(= (typ %s) %d)", m.ref, vc.eng.mapTid(t))))
+		return and(fmt.Sprintf("(>= %s 0)", m.ref), vc.belowTop(st, m.ref), implies(fmt.Sprintf("(> %s 0)", m.ref), fmt.Sprintf("(= (typ %s) %d)", m.ref, vc.eng.mapTid(t))))
 	case *types.Chan:
 		c := v.(IntV)
-		return and(fmt.Sprintf("(>= %s 0)", c.t), fmt.Sprintf("(< %s %s)", c.t, st.top))
+		return and(fmt.Sprintf("(>= %s 0)", c.t), vc.belowTop(st, c.t))
 	case *types.Struct:
 		sv := v.(StructV)
 		var cs []string
@@ -1124,4 +1124,14 @@ func sortedSet(m map[string]bool) []string {
 	}
 	sort.Strings(out)
 	return out
+}
+
+// belowTop: the reference is an object that exists in state st. Under a contract quantifier the bound is left
+// out: the fact is used as a side condition of the quantified body, and a bound that names the allocation counter
+// of one particular state would make the same invariant differ textually (and logically) from state to state.
+func (vc *VC) belowTop(st *State, ref string) string {
+	if vc.pure > 0 && vc.mentionsBound(ref) {
+		return "true"
+	}
+	return fmt.Sprintf("(< %s %s)", ref, st.top)
 }
